@@ -3,27 +3,38 @@ from common import *
 
 CLAIMED = True
 LEVEL = 'proof'
-LEVEL_TEXT = ('Proof (thin lines): 12 Coq theorems over the Gallina model of BresenhamParameters::new / Bresenham::next / Points '
-              '(coq/Model/Line.v) state, for ALL lines with coordinates within +-2^28: first point = start, last = end, '
-              'max(|dx|,|dy|)+1 points, each step is one pixel along the major axis and 0 or 1 along the minor axis in the direction '
-              'of the line, every point is within half a pixel of the ideal line (2|cross| <= dmaj along the minor axis; '
-              '4 cross^2 <= dx^2+dy^2 Euclidean; projection inside the segment), coordinates are monotone, the sequence equals a closed '
-              'form (k*dmin/dmaj rounded to nearest, ties towards the start), points() commutes with translation, and no i32 '
-              'intermediate overflows. The model is tied to the code by running the extracted model and Line::points() on the same '
-              'inputs on every run.')
-LEVEL_NOTE = ('Trusted: Coq kernel, extraction (ExtrOcamlBasic), the OCaml/Rust drivers; the hand-written model is validated by '
-              'differential testing (exhaustive small grids + random long lines up to 2^20), not proved equal to the Rust code; '
-              'arithmetic is unbounded Z, the theorems carry line_ok (+-2^28) and C17_line_no_overflow shows i32 suffices there.')
+LEVEL_TEXT = ('Proof: 21 Coq theorems. Thin lines (12, model coq/Model/Line.v of BresenhamParameters::new / Bresenham::next / Points), '
+              'for ALL lines with coordinates within +-2^28: first point = start, last = end, max(|dx|,|dy|)+1 points, each step is one '
+              'pixel along the major axis and 0 or 1 along the minor axis, every point within half a pixel of the ideal line '
+              '(2|cross| <= dmaj; 4 cross^2 <= dx^2+dy^2; projection inside the segment), monotone, closed form, translation, no i32 '
+              'overflow. Stroked lines (9, model coq/Model/Thickline.v of next_all/previous_all, ParallelsIterator, ThickPoints, '
+              'StyledPixelsIterator), for ALL lines and widths: width 1 = points() in order, width 0 / no colour draws nothing, every '
+              'stroke of width >= 1 starts with exactly points() (contains the thin line), ParallelsIterator stops after <= 3w+2 '
+              'parallels (termination, pixel count bound), translation equivariance. No-duplicate, distance <= w/2+2.5, <= 1 px beyond '
+              'the ends, >= w-1 wide at the middle: proved by computation in Coq for every line with |dx|,|dy| <= 14 anywhere in the plane '
+              '(= all end point pairs of the grid [-7,7]^2 and their translates) x widths 0..9 (C17_thick_grid_partial); beyond that '
+              'domain these four clauses are searched on the implementation. Both models are tied to the code by running the extracted '
+              'model and the real iterators on the same inputs (pixel order included) on every run.')
+LEVEL_NOTE = ('Trusted: Coq kernel (vm_compute for the grid sweep), extraction (ExtrOcamlBasic), the OCaml/Rust drivers; the hand-written '
+              'models are validated by differential testing (exhaustive small grids x widths + random long lines), not proved equal to '
+              'the Rust code; arithmetic is unbounded Z: the thin theorems carry line_ok (+-2^28, C17_line_no_overflow), the thick-line '
+              'arithmetic ranges are the subject of C08_line. The four geometric thick clauses are partial: finite domain only.')
 RULE = ('correspondence: Line::points() vs the extracted model for all lines with end points in [-R,R]^2 (R=5 quick, 9 thorough; '
         'all octants, axis-parallel, diagonal, zero length), random lines of major length 20..40000 anywhere within +-2^19 with a '
-        'share of exact diagonals / ties (dmin = dmaj/2) / near-axis slopes, and whole-sequence digests of lines up to 2^21 long. '
+        'share of exact diagonals / ties (dmin = dmaj/2) / near-axis slopes, whole-sequence digests of lines up to 2^21 long; '
+        'Styled<Line>::pixels() (ordered) and the styled bounding box vs the model for every delta of the grid [-R,R]^2 (R=7/12, i.e. dx,dy in [-2R,2R]) x widths 0..9/12, '
+        'all end point pairs in [-3,3]^2 / [-5,5]^2 x 7 widths, random lines of length 10..2000 x widths up to 40. '
         'non-trivial = model result non-empty; distinct = distinct case lines. '
-        'search p_line: every thin clause of the property evaluated in exact i128 arithmetic on the real Line::points().')
+        'search p_line / p_thick: every clause of the property evaluated in exact i128 arithmetic on the real iterators; p_thick on '
+        'every delta of the grid [-R,R]^2 (R=7 quick, 12 thorough) x every width 0..9/12 and on random lines up to 300 long x widths up to 33.')
 EXHAUSTIVE = {'quick': False, 'thorough': False}
 ASSUMPTIONS = ['line_ok: all four coordinates within +-2^28 (so that 2*|delta| and the error accumulator fit i32); '
-               'beyond it the implementation overflows (panic in debug, wrap in release) and C17 makes no claim']
-TRUSTED = ['modelled, not verified: Point +/-/abs as unbounded Z operations, `as u32` of a non-negative i32']
-PARTIAL = []
+               'beyond it the implementation overflows (panic in debug, wrap in release) and C17 makes no claim',
+               'stroke widths are u32 (0 <= w); widths above i32::MAX saturate (modelled)']
+TRUSTED = ['modelled, not verified: Point +/-/abs as unbounded Z operations, `as u32` of a non-negative i32, az::SaturatingAs u32->i32, '
+           'i32 `/ 2` of a non-negative value as Z.quot']
+PARTIAL = ['C17_thick_grid_partial (full statement: thick_ok l w -- no duplicate pixel, distance <= w/2+2.5, <= 1 px beyond the ends, '
+           '>= w-1 wide at the middle -- for ALL lines and widths; proved for |dx|,|dy| <= 14, w <= 9 by computation)']
 
 
 def grid_lines(R):
@@ -74,9 +85,10 @@ def cases(tier, rng):
     yield J('line_walk', 2 ** 20, -2 ** 20, -2 ** 20, 1)
     # ---- thick lines: Styled<Line>::pixels(), order included; styled bounding box
     RT, WT = (7, 9) if tier == 'quick' else (12, 12)
-    for (x1, y1) in [(x, y) for x in range(-RT, RT + 1) for y in range(-RT, RT + 1)]:
+    for (x1, y1) in [(x, y) for x in range(-2 * RT, 2 * RT + 1) for y in range(-2 * RT, 2 * RT + 1)]:
         for w in range(0, WT + 1):
-            # Bresenham and ParallelsIterator are relative to start: lines from the origin in every direction ...
+            # Bresenham and ParallelsIterator are relative to start (C07_line_*_translate): every delta of the grid
+            # [-RT,RT]^2, i.e. lines from the origin to every point of [-2RT,2RT]^2 ...
             yield J('thick_pixels', 0, 0, x1, y1, w)
             yield J('line_sbb', 0, 0, x1, y1, w)
     # ... and the full grid of end point pairs on a smaller radius
@@ -101,3 +113,14 @@ def search(tier, rng):
         yield J('p_line', *long_line(rng, rng.choice([20, 60, 200, 1000, 5000])))
     for _ in range(20 if tier == 'quick' else 200):
         yield J('p_line', *long_line(rng, 2 ** 20))
+    # thick clauses: every delta of the grid [-R,R]^2 (start at the origin and at one other point), every width
+    RT, WT = (7, 9) if tier == 'quick' else (12, 12)
+    for x1 in range(-2 * RT, 2 * RT + 1):
+        for y1 in range(-2 * RT, 2 * RT + 1):
+            for w in range(0, WT + 1):
+                yield J('p_thick', 0, 0, x1, y1, w)
+    for l in grid_lines(3 if tier == 'quick' else 5):
+        for w in (1, 2, 3, 4, 7):
+            yield J('p_thick', *l, w)
+    for _ in range(3000 if tier == 'quick' else 40000):
+        yield J('p_thick', *long_line(rng, rng.choice([10, 30, 80, 300])), rng.choice([1, 2, 3, 4, 5, 6, 7, 9, 12, 20, 33]))
